@@ -243,9 +243,11 @@ def from_skeleton(inclusive, step, coll, names):
 
     def f(w):
         bad = []
-        if not (len(w) > 8 and w[0][0] == "code" and jumps.base(w[0][1]) == "val_start" and ins_at(w, 1, "store_fast") and w[2][0] == "code"
-                and jumps.base(w[2][1]) == "val_end" and ins_at(w, 3, "store_fast")):
-            return ["expected `<val_start> store_fast C <val_end> store_fast E` first"]
+        # the counter is parked with store_fast (a new name) or store (an existing variable, assigned in place): which of the two is right is
+        # C07's business (`C07.fresh-cell`), the loop's control flow is the same
+        if not (len(w) > 8 and w[0][0] == "code" and jumps.base(w[0][1]) == "val_start" and (ins_at(w, 1, "store_fast") or ins_at(w, 1, "store"))
+                and w[2][0] == "code" and jumps.base(w[2][1]) == "val_end" and ins_at(w, 3, "store_fast")):
+            return ["expected `<val_start> store[_fast] C <val_end> store_fast E` first"]
         c, e = reg(w[1]), reg(w[3])
         if c is None or e is None or c == e:
             bad.append("counter and bound are parked in the same register (%s)" % c if c == e else "the registers could not be read")
